@@ -105,6 +105,24 @@ def top_level_texts(fa, skip_plain_locals=True):
     return out
 
 
+def lazy_cache(ctx, rule, fa, attr, what, value_pred=None, extra_ok=()):
+    """the compute-once idiom `if self.X is None: self.X = <value>; return self.X`: the fill is reached exactly when the cache is empty
+    (plus `extra_ok` outer conditions), the value satisfies value_pred, and every path returns the cached attribute"""
+    q = fa.fi.qualname
+    fills = [x for x in fa.stmts(ast.Assign) if any(dotted(t) == f"self.{attr}" for t in x.targets)]
+    ok = len(fills) == 1
+    ctx.ob(rule, ok, fa.site(), f"{what}: one fill of self.{attr}", func=q)
+    for x in fills:
+        exact_gate(ctx, rule, fa, x, " and ".join([f"self.{attr} is None"] + list(extra_ok)), f"{what}: computed exactly when self.{attr} is empty", key=f"{rule}|{q}|fill-exact")
+        if value_pred is not None:
+            ctx.ob(rule, bool(value_pred(x.value)), fa.site(x), f"{what}: the value stored", detail=unparse(x.value)[:100], func=q, key=f"{rule}|{q}|fill-value")
+    rets = fa.stmts(ast.Return)
+    cached = [r for r in rets if r.value is not None and dotted(r.value) == f"self.{attr}"]
+    p = fa.path([fa.cfg.entry], [fa.cfg.exit], avoid=lambda n: n.kind == "return", include_exc=False)
+    ctx.ob(rule, bool(cached) and p is None, fa.site(), f"{what}: self.{attr} is returned and no path falls off the end", func=q, key=f"{rule}|{q}|returns")
+    return fills
+
+
 def ref_sites(prog, name, loads_only=True):
     """[(module, node, enclosing FunctionInfo|None)] for every syntactic reference to identifier `name`"""
     out = []
